@@ -663,7 +663,12 @@ mutual
             | .bytes b => pure (b.zipIdx.map (fun (x, i) => (Value.int i, Value.int x.toNat)))
             | .undef => pure []
             | x => eRt s!"not iterable: {typeName x}"
-          let live := match itv with | .arr r => some r | _ => none
+          let live : Option (Nat × Nat) ← match itv with
+            | .arr r => do
+                match ← liftM (getObj r) with
+                | .arr st _ _ => pure (some (r, st))
+                | _ => pure none
+            | _ => pure none
           let fl ← loopForIn fuel ctx1 k v items live 0 body
           pure (fl, ctx.env)
       | .branch tok => pure (if tok == "Break" then .brk else .cont, ctx.env)
@@ -691,16 +696,20 @@ mutual
               loopFor fuel ctx c post body
   /-- for-in: arrays are iterated through the live array (element writes during the loop are seen,
   length is fixed at the start); other iterables through the snapshot. -/
-  def loopForIn : Nat → Ctx → String → String → List (Value × Value) → Option Nat → Nat → List Stmt → EM Flow
+  def loopForIn : Nat → Ctx → String → String → List (Value × Value) → Option (Nat × Nat) → Nat → List Stmt → EM Flow
     | 0, _, _, _, _, _, _, _ => liftM (throw Err.fuel)
     | _ + 1, _, _, _, [], _, _, _ => pure .normal
     | fuel + 1, ctx, k, v, (kv, vv) :: rest, live, i, body => do
         let vv ← match live with
-          | some r => do
+          | some (r, st0) => do
               let es ← liftM (arrElems r)
               -- the iterator holds the slice it started with: if the array was restructured meanwhile
-              -- (splice), what it sees depends on hidden capacity
-              if es.length != rest.length + 1 + i then
+              -- (splice: another length, or another store of the same length), what it sees depends on
+              -- hidden capacity
+              let sameStore ← match ← liftM (getObj r) with
+                | .arr st _ _ => pure (st == st0)
+                | _ => pure false
+              if es.length != rest.length + 1 + i || !sameStore then
                 liftM (throw (Err.excluded "array restructured during for-in over it (hidden capacity)"))
               pure (es.getD i vv)
           | none => pure vv
